@@ -6,11 +6,7 @@ import subprocess
 
 import qubit_agree as qa
 
-FINDINGS = {
-    "C09:nv-transpiler-carbon-gate-borrows-unallocated-electron": dict(
-        cfg=dict(max_q=4, nv_hw=True, transp=True),
-        ops=[["new"], ["new"], ["new"], ["md", 1], ["g2", 2, 0], ["flush"]]),
-}
+FINDINGS = {}   # every recorded input class is repaired; the former witnesses are in corpus/C09/
 
 
 def run_keyed(repo, cfg, ops):
@@ -130,8 +126,9 @@ def run(ctx):
         "or several pairs on hardware with several communication qubits).  Not covered: "
         "measure-directly and remote-state-preparation requests, min_fidelity_all_at_end retry loops, operations "
         "inside an EPR block other than on the block's qubit, handles used after they were measured or freed",
-        "an SDK refusal (AssertionError in _create_ent_qubits: NV, keep of n>=2 pairs while an ID below n is in use) "
-        "emits no subroutine and is outside the property; it is modelled (OReject) and counted in the evidence",
+        "the only SDK refusal of a generated program is API misuse (sequential=True for several pairs without a post "
+        "routine: ValueError); it is modelled (OReject), excluded by within_budget, and counted in the evidence; any "
+        "other refusal (e.g. an AssertionError while building) is an oracle failure",
     ]
     res = ctx.props("C09")
     repo = ctx.repo
